@@ -68,6 +68,8 @@ VALUE_ARGS = [
     ('int', ('py', '7')), ('str', ('py', "'s'")), ('tuple', ('py', '(1, 2)')), ('list', ('py', '[1, 2]')),
     ('dict', ('py', "{'k': [1]}")), ('none', ('py', 'None')), ('num', ('num', '3')), ('true', ('num', 'True')),
     ('float', ('py', '1.5')),
+    # unhashable values other than list / dict
+    ('set', ('py', '{1, 2}')), ('bytearray', ('py', "bytearray(b'x')")),
 ]
 INT_ARGS = [('num0', ('num', '0')), ('num2', ('num', '2')), ('py1', ('py', '1')), ('pyexpr', ('py', '1 + 1'))]
 STR_ARGS = [('a', ('str', 'a')), ('ab', ('str', 'ab'))]
@@ -424,6 +426,38 @@ def curated_special():
     out.append(('same-pos-int-vs-str', [
         ('rule', 'start', None, ('seq', [('expect', ('call', 'V', [('py', '1')])), ('call', 'V', [('py', "'1'")])])),
         ('rule', 'V', ['v'], ('seq', [T, ('py', 'v')]))]))
+    # a let inside an ARGUMENT expression re-binds a name of the call site (a parameter, a let variable)
+    # and works the new value out from the old one
+    out.append(('rebind-param-in-argument', [
+        ('rule', 'start', None, ('call', 'F', [('str', 'a')])),
+        ('rule', 'F', ['x'], ('call', 'W', [('let', 'x', ('seq', [('ref', 'x'), ('str', '!')]), ('py', 'x'))])),
+        ('rule', 'W', ['p'], ('seq', [('ref', 'p'), ('opt', ('str', 'b'))]))]))
+    out.append(('rebind-value-in-argument', [
+        ('rule', 'start', None, ('call', 'F', [('py', '1')])),
+        ('rule', 'F', ['v'], ('call', 'W', [('let', 'v', ('py', 'v + 1'), ('seq', [T, ('py', 'v')]))])),
+        ('rule', 'W', ['p'], ('seq', [('ref', 'p'), ('opt', ('str', 'b'))]))]))
+    out.append(('rebind-let-in-argument', [
+        ('rule', 'start', None, ('let', 'w', T, ('call', 'W', [('let', 'w', ('py', "w + '?'"), ('seq', [T, ('py', 'w')]))]))),
+        ('rule', 'W', ['p'], ('seq', [('ref', 'p'), ('opt', ('str', 'b'))]))]))
+    # a call NESTED in an argument receives a name bound at the call site as a bare argument: a field,
+    # a let variable, a parameter
+    SAME = ('rule', 'Same', ['t'], ('where', T, ('py', 'lambda w: w == t')))
+    WRAPQ = ('rule', 'WrapQ', ['e'], ('right', ('str', '('), ('left', ('ref', 'e'), ('str', ')'))))
+    out.append(('nested-call-bare-field', [
+        ('rule', 'start', None, ('ref', 'Elem')),
+        ('class', 'Elem', None, [('field', 'tag', T), ('field', 'body', ('call', 'WrapQ', [('call', 'Same', [('ref', 'tag')])]))]),
+        SAME, WRAPQ]))
+    out.append(('nested-call-bare-let', [
+        ('rule', 'start', None, ('let', 'tag', T, ('call', 'WrapQ', [('call', 'Same', [('ref', 'tag')])]))),
+        SAME, WRAPQ]))
+    out.append(('nested-call-bare-param', [
+        ('rule', 'start', None, ('call', 'Outer', [('py', "'a'")])),
+        ('rule', 'Outer', ['tag'], ('call', 'WrapQ', [('call', 'Same', [('ref', 'tag')])])),
+        SAME, WRAPQ]))
+    out.append(('nested-call-bare-field-compound', [
+        ('rule', 'start', None, ('ref', 'Elem')),
+        ('class', 'Elem', None, [('field', 'tag', T), ('field', 'body', ('call', 'WrapQ', [('alt', [('call', 'Same', [('ref', 'tag')]), ('str', '-')])]))]),
+        SAME, WRAPQ]))
     # the same template at one position with arguments that are unequal but hash alike (hash(-1) ==
     # hash(-2); the memo's XOR hash of a list ignores the order), positional and by keyword
     for htag, v1, v2 in (('minus', '-1', '-2'), ('perm', '[0, 1]', '[1, 0]'), ('nested-perm', "{'k': [1, 2]}", "{'k': [2, 1]}"), ('tuple-perm', '(1, 2)', '(2, 1)')):
